@@ -63,6 +63,7 @@ def real_analysis(g):
            "nullable": sorted(n for n, r in rules.items() if r.nullable),
            "item_nullable": sorted(tr.ids[id(n)] for n in all_named_items(g) if n.nullable and id(n) in tr.ids),
            "graph": {k: sorted(v) for k, v in gen.first_graph.items()},
+           "sccs": [sorted(c) for c in gen.first_sccs],            # in the order sccutils yielded them
            "left_rec": sorted(n for n, r in rules.items() if r.left_recursive),
            "leaders": sorted(n for n, r in rules.items() if r.leader)}
     return term, res
